@@ -393,6 +393,7 @@ func (run *Run) RunC07() {
 	n := run.partialBox(emit)
 	rep.Count("c07.partial_box", int64(n))
 	rep.Exhaustive = append(rep.Exhaustive, fmt.Sprintf("%d fragments x %d follow-up inputs x 8 entry points of the four strict-JSON front-ends (two-call histories)", len(genPartials), len(followUps)))
+	run.mapPoolStream(emit) // 2b. the Reuse map pool p.maps / p.mi (mappool.go)
 	// 3. random histories
 	per := 4000
 	if run.Tier == "thorough" {
